@@ -9,10 +9,34 @@ PID = "C08"
 VIS = SC.TOKENS + ["lock-try"]
 
 
+def cheat_worlds():
+    """Token cheating (log capture on): `b` is the first target, so redo-log follows it.  a's chain gets x first; b's
+    redo-ifchange finds x locked, hands its token back and waits; the top level uses that token for c; x finishes while a
+    and c are still busy (scripts that wait for b), so when b's redo-ifchange gets the lock no token is to be had: it
+    cheats.  In `cheat-uptodate` x is then up to date (the cheater exits holding the borrowed token); in `cheat-builds`
+    b asked with `redo x`, so the cheater builds x itself with the borrowed token."""
+    from ..worlds import S, World
+    common_ = {
+        "x.do": [S(deps=["s"], sync=(("start", "set", "x-started"), ("mid", "wait", "c-started")))],
+        "a.do": [S(deps=["x"], sync=(("mid", "wait", "b-done"),))],
+        "c.do": [S(deps=["s"], out="file", sync=(("start", "set", "c-started"), ("mid", "wait", "b-done")))],
+    }
+    w1 = World("cheat-uptodate", {"s": ["0", "1"]},
+               dict(common_, **{"b.do": [S(deps=["x"], sync=(("start", "wait", "x-started"), ("end", "set", "b-done")))]}),
+               ["a", "b", "c", "x"], ["a", "b", "c"])
+    w2 = World("cheat-builds", {"s": ["0", "1"]},
+               dict(common_, **{"b.do": [S(seq=(("redo", ("x",)),), sync=(("start", "wait", "x-started"), ("end", "set", "b-done")))]}),
+               ["a", "b", "c", "x"], ["a", "b", "c"])
+    return w1, w2
+
+
 def scenarios(tier):
     w = SC.W()
     q = tier == "quick"
     L = []
+    cw1, cw2 = cheat_worlds()
+    L.append((SC.scn("own-log-cheat-uptodate-j2", cw1, ["redo -j2 b a c"], visible=VIS, limit=2, log_mode=True), 1 if q else 2))
+    L.append((SC.scn("own-log-cheat-builds-j2", cw2, ["redo -j2 b a c"], visible=VIS, limit=2, log_mode=True), 1 if q else 2))
     # own jobserver: redo -jN creates the pipes and checks itself on exit
     L.append((SC.scn("own-fan3-j2", w["fan3"], ["redo --no-log -j2 top"], visible=VIS, limit=2), 1 if q else 2))
     L.append((SC.scn("own-fan3x2-j2", w["fan3x2"], ["redo --no-log -j2 t1 t2"], visible=VIS, limit=2), 1 if q else 2))
@@ -54,7 +78,8 @@ def oracle(scn, res):
     if res["verdict"] != "done":
         return out
     # (1) the limit: scripts doing work at the same time <= N (+1 only if a cheat token was granted)
-    cheated = any("ch=1" in s["detail"] or "ch=2" in s["detail"] for s in res["steps"] if s["kind"] == "select")
+    cheated = any(kind == "cheat" for _st, _lid, kind, _d in res["events"]) or \
+        any("ch=1" in s["detail"] or "ch=2" in s["detail"] for s in res["steps"] if s["kind"] == "select")
     openw = set()
     peak = 0
     for step, lid, kind, detail in res["events"]:
@@ -96,7 +121,7 @@ STATS = {"peak_seen": {}, "cheats": 0}
 
 
 def collect(scn, res):
-    if any("ch=1" in s["detail"] for s in res["steps"] if s["kind"] == "select"):
+    if any(kind == "cheat" for _st, _lid, kind, _d in res["events"]):
         STATS["cheats"] += 1
     rs = STATS.setdefault("ready_sets", {}).setdefault(scn["name"], set())
     for s in res["steps"]:
